@@ -91,7 +91,9 @@ fn main() {
     }
     fixed.push("-Zmir-opt-level=0".into());
     fixed.push("-Awarnings".into());
-    extract::set_output(&fact_dir, &crate_name);
+    let is_test = fixed.iter().any(|a| a == "--test");
+    let out_name = if is_test { format!("{}__test", crate_name) } else { crate_name.clone() };
+    extract::set_output(&fact_dir, &out_name);
     let mut cb = extract::Cb;
     rustc_driver::run_compiler(&fixed, &mut cb);
 }
